@@ -363,6 +363,9 @@ def kconfig_reader(ctx):
     return cands[0]
 
 
+_RE_OPS = ("call:re.match", "call:re.fullmatch", "call:re.search")
+
+
 def kconfig_rules(ctx, ev):
     R = ctx.report
     repo = ctx.repo
@@ -391,7 +394,7 @@ def kconfig_rules(ctx, ev):
         return t.args[0] if isinstance(t, App) and t.op == "str" and len(t.args) == 1 else t
 
     matches = [s_ for o in outs for c in list(o.conds) + [e for e in all_effects(o.effects)] for s_ in subterms(c)
-               if isinstance(s_, App) and s_.op == "call:re.match" and isinstance(s_.args[0], Const)]
+               if isinstance(s_, App) and s_.op in _RE_OPS and isinstance(s_.args[0], Const)]
 
     def key_parts(t):
         # config[ 'SB_CONFIG_SUIT_MPI_' + str(manifest) + '_X_NAME' ]
@@ -409,7 +412,9 @@ def kconfig_rules(ctx, ev):
             keyterm = App("unpack", (t.args[0], Const(0), Const(2)))
             for mt in matches:
                 if mt.args[1] == keyterm:
-                    pm = re.fullmatch(r"\^(\w*)\(\?P<manifest>[^()]*\)(\w*)\$", mt.args[0].v)
+                    pm = re.fullmatch(r"\^?(\w*)\(\?P<manifest>[^()]*\)(\w*)\$?", mt.args[0].v)
+                    if pm and mt.op != "call:re.fullmatch" and not (mt.args[0].v.startswith("^") and mt.args[0].v.endswith("$")) and mt.op == "call:re.search":
+                        pm = None
                     if pm:
                         return cfg, pm.group(1), App("meth:group", (mt, Const("manifest"))), pm.group(2)
         return None
@@ -424,7 +429,7 @@ def kconfig_rules(ctx, ev):
     manifest = kv_[2] if kv_ else (kc[2] if kc else None)
     grp_ok = manifest is not None and any(isinstance(s, App) and s.op == "meth:group" and s.args[1:] == (Const("manifest"),)
                                           for s in subterms(manifest))
-    rx = [s for s in subterms(manifest) if isinstance(s, App) and s.op == "call:re.match"] if manifest is not None else []
+    rx = [s for s in subterms(manifest) if isinstance(s, App) and s.op in _RE_OPS] if manifest is not None else []
     pattern = rx[0].args[0].v if rx and isinstance(rx[0].args[0], Const) else None
     R.check("C13-D2a same manifest", grp_ok and pattern is not None, "manifest name = named group of the matched key", mod=fi.module,
             node=fi.node, function=fq, expected="re.match(<pattern with (?P<manifest>…)>, key).group('manifest')",
@@ -451,7 +456,7 @@ def kconfig_rules(ctx, ev):
             got = teval(role.args[1], {manifest: n, base: n, App("str", (base,)): n})
         except Unknown as e:
             raise AnalysisError(f"{fq}: role name expression not evaluable: {e}")
-        matches_regex = pattern is not None and re.match(pattern, f"SB_CONFIG_SUIT_MPI_{n}_VENDOR_NAME") is not None
+        matches_regex = pattern is not None and getattr(re, rx[0].op.split(".")[-1])(pattern, f"SB_CONFIG_SUIT_MPI_{n}_VENDOR_NAME") is not None
         R.check("C13-D2b role mapping", got == want and got in members and matches_regex, f"{n} -> {want}", mod=fi.module,
                 node=fi.node, function=fq, expected=f"ManifestRole.{want}, key matched by the pattern",
                 found=f"ManifestRole[{got!r}]{'' if got in members else ' (no such member)'}"
